@@ -12,3 +12,8 @@ open FormulaeModel
 #print axioms C10.C10_config_last_wins
 #print axioms C10.config_tie
 #print axioms C10.config_shape
+#print axioms C10.factorState_of_trainGroup
+#print axioms C10.C10_newGroup_error
+#print axioms C10.C10_newGroup_block
+#print axioms C10.C10_newGroup_unseen_entries
+#print axioms C10.C10_newGroup_single
